@@ -59,6 +59,9 @@ claimed={
  "C17": dict(level="exploration", engine="venum", design="7 C17", technique=E2,
    text="Packets from a reference encoder (all 16 data types x 16 sub-package marks x PT/M/attr menus x payload lengths around 0, 950 and 65535), all sequences of 1..2 (thorough 3) packets from a 29-packet menu and every prefix of them, plus arbitrary short strings, are decoded from the front with a fresh and with a reused Packet and compared field by field with a reference reader; truncations must be classified short/unqualified.",
    note="Trusts harness/ref/rtp.go (JT/T 1078 table 19)."),
+ "C20": dict(level="exploration", engine="venum", design="7 C20", technique=E2+"; predicted replies additionally compared with what the real server writes in a 65537-frame conversation",
+   text="For versions 2011/2013/2019, all 24 default commands and 1 000+ phones (every decimal string of length 1..3 (thorough 4), digit sweeps of full-length phones, one phone per template checksum value incl. 0x7D/0x7E) three consecutive simulator frames are decoded by the library and by the reference decoder (ID, phone modulo leading zeros, header layout, serial +1), their bodies parsed with the matching model type and re-encoded; custom bodies over the special-byte alphabet go through CreateCommandData; a terminal is carried through 65537 frames; ExpectedReply is compared with the reference reply for every reply-bearing command x version x all 65536 platform serials and with the real server's output in a 65537-frame conversation.",
+   note="Reference reply table harness/ref/reply.go (itself compared with the real server by C06)."),
 }
 checks=[]
 for p in props:
